@@ -1077,7 +1077,7 @@ pub struct DocRecipe {
 pub fn doc_recipe() -> BoxedStrategy<DocRecipe> {
     (
         prop::collection::vec((idx(), doc_value(2)), 0..=7),
-        prop::collection::vec((idx(), 0u8..8, any::<u8>()), 0..=6),
+        prop::collection::vec((idx(), 0u8..9, any::<u8>()), 0..=6),
     )
         .prop_map(|(base, edits)| DocRecipe { base, edits })
         .boxed()
@@ -1116,6 +1116,19 @@ pub fn build_doc_with_leaves(leaves: &[Leaf], r: &DocRecipe) -> DObj {
                 0..=3 => place(&mut doc, leaf, Some(value_for(leaf, true, *variant)), as_array),
                 4 | 5 => place(&mut doc, leaf, Some(value_for(leaf, false, *variant)), as_array),
                 6 => place(&mut doc, leaf, None, as_array),
+                8 => {
+                    // an array whose elements satisfy the different predicates written on this
+                    // field (the members of a list, or several entries on one field)
+                    let vals: Vec<DocVal> = leaves
+                        .iter()
+                        .filter(|l| l.prefix == leaf.prefix && l.field == leaf.field)
+                        .enumerate()
+                        .filter(|(i, _)| (variant >> (i % 4)) & 1 == 0 || variant % 3 == 0)
+                        .map(|(i, l)| value_for(l, true, (i as u8) * 2))
+                        .filter(|v| !matches!(v, DocVal::Arr(_) | DocVal::Obj(_)))
+                        .collect();
+                    place(&mut doc, leaf, Some(DocVal::Arr(DArr(vals))), as_array)
+                }
                 _ => {
                     // wrong kind
                     let wrong = match variant % 5 {
